@@ -11,9 +11,9 @@ CHECKS = {
  'C02': dict(level='exploration', ref='3/C02', technique='TLA+ trace acceptor over the vendored corpus (Corpus.tla: Render(e) enabled only with the expected output; completeness invariant), TLC',
    text='All 652 examples are rendered on every run and the trace is consumed by Corpus.tla; exhaustive over the finite corpus. The oracle is data (the vendored corpus), the specification adds equality and completeness book-keeping.',
    note='Trusted: harness/htmlnorm.py (applied to both sides), the vendored corpus (sha256 pinned), TLC.'),
- 'C03': dict(level='model_checking', ref='3/C03', technique='TLA+ typing model of Markdown documents (DocGen.tla) explored by TLC exhaustively within small bounds and in simulation mode; every generated behaviour (source + HTML of the intended tree, both written by the specification) replayed into the real parser/renderer (spec -> code)',
-   text='DocGen.tla types documents action by action under CommonMark guards and writes source text and expected HTML itself; TLC checks its type, line-order and first-wins invariants and exports every finished document; the harness renders each source with the real HtmlRenderer and compares after CommonMark test normalisation.',
-   note='Trusted: the CommonMark rules transcribed as guards of DocGen.tla (validated against the unchanged parser and the specification text; every disagreement was triaged), harness/htmlnorm.py. Tables, HTML blocks and some inline constructs are not yet typed by the model.'),
+ 'C03': dict(level='model_checking', ref='3/C03', technique='TLA+ typing model of Markdown documents (DocGen.tla) explored by TLC exhaustively within small bounds and in simulation mode; every generated behaviour (source + HTML of the intended tree, both written by the specification) replayed into the real parser/renderer (spec -> code); plus a TLA+ line-by-line reader of CommonMark block structure (BlockParse.tla, one action per input line) explored by TLC over every line sequence of <= 3/4 lines over nine line alphabets and in simulation mode, each document with the HTML of the tree the specification assigns to it replayed into the real parser',
+   text='DocGen.tla types documents action by action under CommonMark guards and writes source text and expected HTML itself; TLC checks its type, line-order and first-wins invariants and exports every finished document; the harness renders each source with the real HtmlRenderer and compares after CommonMark test normalisation. BlockParse.tla reads arbitrary line sequences (container matching, block starts in order of precedence, lazy continuation, tight/loose) and TLC checks its own invariants and the laws of C04/C05 on the model (QuoteLaw, ListLaw, ConcatLaw) for every document; documents of recorded finding classes are identified by tags the specification computes.',
+   note='Trusted: the CommonMark rules transcribed as guards of DocGen.tla (validated against the unchanged parser and the specification text; every disagreement was triaged), harness/htmlnorm.py; the reading rules of BlockParse.tla (CommonMark 0.30 appendix A, validated against the unchanged parser: 190,000 documents of <= 4 lines and 38,000 random longer ones agree outside the recorded classes; one class the specification text does not settle is tagged and not judged).'),
  'C04': dict(level='exploration', ref='3/C04', technique='TLA+ law (Laws!QuoteLaw, Laws!ListLaw) judged by TLC on recorded parses (trace validation)',
    text='Every recorded (base parse, embedded parse) pair is judged by TLC against the embedding laws; inputs are sampled (corpus, mutations, splices, random), so this is exploration with a TLA+ oracle, not exhaustive.',
    note='Trusted: the textual embedding functions and the token projection in harness/; TLC. Texts with whitespace-only lines are outside the list law.'),
@@ -41,9 +41,9 @@ CHECKS = {
  'C12': dict(level='model_checking', ref='3/C12', technique='TLA+ model of the BFS walker (Traverse.tla) checked exhaustively by TLC and replayed into utils.traverse; TreeShape.tla predicates judged by TLC on dumps of real parses',
    text='Traverse.tla is explored over all trees of <= 4/5 nodes x filters x depth limits x include_source and refines the property-tier ExpectedYields; each case is replayed on a real token tree. Shape, traversal and AST-mirror laws are judged by TLC on dumps of real parses under four token sets (sampled inputs).',
    note='Trusted: the dump of the object graph in harness/c12.py, the child-kind table in TreeShape.tla (taken from the class docstrings), TLC.'),
- 'C13': dict(level='model_checking', ref='3/C13', technique='TLA+ typing model (DocGen.tla) records the line on which every block starts; behaviours replayed into the real parser and (class, line_number) sequences compared (spec -> code)',
+ 'C13': dict(level='model_checking', ref='3/C13', technique='TLA+ typing model (DocGen.tla) records the line on which every block starts; behaviours replayed into the real parser and (class, line_number) sequences compared (spec -> code); the documents read by BlockParse.tla (every short line sequence) carry the start line of every block too',
    text='For every document typed by DocGen.tla (exhaustive small bounds + simulation) the specification knows the line on which it wrote each block; the harness compares with token.line_number of every block token in document order.',
-   note='Trusted: the line book-keeping of DocGen.tla (LinesOrdered invariant checked by TLC). Tables and containers that begin with a blank line are not yet typed by the model.'),
+   note='Trusted: the line book-keeping of DocGen.tla (LinesOrdered invariant checked by TLC). A second law (BlockCursorTrace) requires an anchor of every block token on the line it reports, on arbitrary inputs.'),
  'C14': dict(level='model_checking', ref='3/C14', technique='TLA+ model of inert prose (Prose.tla: vocabulary with lexical guards, paragraph typed lexeme by lexeme) explored by TLC exhaustively within bounds and in simulation mode; every paragraph replayed into the real renderer (spec -> code)',
    text='Prose.tla types paragraphs under conservative spec-derived inertness guards and writes text and expected HTML; all paragraphs of one line x <= 2 lexemes and two lines x 1 lexeme (thorough: 3 / 3) plus simulated larger ones are rendered by the real HtmlRenderer and compared for equality.',
    note='Trusted: the inertness guards of Prose.tla (each is a CommonMark block-start or inline-trigger rule, conservative by construction).'),
